@@ -378,6 +378,8 @@ class Cfg:
 
     def hset(self, key, val):
         heap = dict(self.heap)
+        if isinstance(val, DictV) and val.origin == key:
+            val = DictV(val.items)  # the slot itself holds the dictionary, not an alias of it
         heap[key] = val
         return Cfg(self.env, heap, self.trace, self.assume, self.facts)
 
@@ -669,7 +671,10 @@ class Interp:
                                 if base.get(idx) is None and all(isinstance(k, Const) for k, _ in base.items) and isinstance(idx, Const):
                                     out.add("raise", c3.set("$exc", ExcV("KeyError", f"del L{stmt.lineno}")))
                                     continue
-                                c3 = self.store_back(tgt.value, DictV([(k, v) for k, v in base.items if k != idx]), c3)
+                                left = [(k, v) for k, v in base.items if k != idx]
+                                c3 = self.store_back(tgt.value, DictV(left, base.origin if isinstance(tgt.value, ast.Name) else None), c3)
+                                if base.origin is not None:
+                                    c3 = c3.hset(base.origin, DictV(left))  # deleted through an alias of the heap dictionary
                             if isinstance(base, ListV) and isinstance(idx, App) and idx.op == "slice" and all(a == NONE for a in idx.args):
                                 if isinstance(tgt.value, ast.Name):
                                     c3 = c3.set(tgt.value.id, ListV((), base.kind))
@@ -1314,7 +1319,10 @@ class Interp:
             if attr == "__name__":
                 return Const(base.name)
             if f"{base.name}.{attr}" in cfg.heap:
-                return cfg.heap[f"{base.name}.{attr}"]
+                v = cfg.heap[f"{base.name}.{attr}"]
+                if isinstance(v, DictV) and self.policy.track_aliases:
+                    return DictV(v.items, f"{base.name}.{attr}")
+                return v
             f = self.lookup_method(base.name, attr)
             if f is not None:
                 return FuncV(f, recv=base, name=f"{base.name}.{attr}")
@@ -2284,13 +2292,17 @@ class Interp:
                 return [(cfg, ListV([v for _, v in base.items]))]
             if meth == "copy":
                 return [(cfg, DictV(base.items))]
-            if meth == "update" and len(args) == 1:
-                if isinstance(args[0], DictV):
-                    d = base
+            if meth == "update" and len(args) <= 1 and (args or kwargs) and not any(k.startswith("**") for k in kwargs):
+                # update(mapping), update(key=value, ..), update(mapping, key=value, ..)
+                d = base
+                if args and isinstance(args[0], DictV):
                     for k, v in args[0].items:
                         d = d.set(k, v)
-                    return rebind(d)
-                return rebind(base.set(App("starstar", (args[0],)), args[0]))
+                elif args:
+                    d = d.set(App("starstar", (args[0],)), args[0])
+                for k, v in kwargs.items():
+                    d = d.set(Const(k), v)
+                return rebind(d)
             if meth == "pop" and args and isinstance(args[0], Const):
                 v = base.get(args[0])
                 nd = DictV([(k, x) for k, x in base.items if k != args[0]], base.origin)
